@@ -1220,8 +1220,48 @@ func RunCursor(p *Prog, pkgpath string) *CursorResult {
 	// of the rules - it returns nothing, or a tuple other than (value, error) - is a piece of its callers factored out
 	// (readComment(), readMemberHead() (doc, name string), ...) and is analysed as part of them. Readers proper (one
 	// result, or (node, error)) and the two primitives stay calls and are summarised.
+	// call sites per function of the package (a function's calls of itself do not count)
+	sites := map[*ssa.Function][]*ssa.Function{}
+	for _, g := range p.FuncsOf(pkgpath) {
+		for _, cs := range callsIn(g, false) {
+			if t := cs.Common.StaticCallee(); t != nil && t != g && fnPkgPath(t) == pkgpath {
+				sites[t] = append(sites[t], g)
+			}
+		}
+	}
+	nodeResult := func(f *ssa.Function) types.Type {
+		res := f.Signature.Results()
+		if res.Len() != 1 {
+			return nil
+		}
+		pt, ok := res.At(0).Type().(*types.Pointer)
+		if !ok {
+			return nil
+		}
+		if nt, ok := pt.Elem().(*types.Named); ok && nt.Obj().Pkg() != nil && nt.Obj().Pkg().Path() == pkgpath {
+			if _, isStruct := nt.Underlying().(*types.Struct); isStruct {
+				return pt
+			}
+		}
+		return nil
+	}
+	// continuation: a function building a tree node that is called at exactly one place, from a function building the
+	// same kind of node (`readMaybeType()` = the rest of readType's '?' arm, `builtinType(keyword)`): a form of its
+	// caller's grammar element written as a function of its own; analysed as part of the caller, where what was read
+	// before the call is known
+	continuation := func(f *ssa.Function) bool {
+		rt := nodeResult(f)
+		if rt == nil || len(sites[f]) != 1 || f.Parent() != nil {
+			return false
+		}
+		crt := nodeResult(sites[f][0])
+		return crt != nil && types.Identical(rt, crt)
+	}
 	regular := func(f *ssa.Function) bool {
 		res := f.Signature.Results()
+		if continuation(f) {
+			return false
+		}
 		if res.Len() == 1 {
 			// a loop-free method that answers with a number or a truth value (`peek() int`, `expect(c byte) bool`) is a
 			// cursor idiom of its callers, not a reader of a grammar element
@@ -1267,6 +1307,9 @@ func RunCursor(p *Prog, pkgpath string) *CursorResult {
 						return false
 					}
 				}
+				if continuation(callee) {
+					return false
+				}
 			}
 			return true
 		}
@@ -1274,6 +1317,11 @@ func RunCursor(p *Prog, pkgpath string) *CursorResult {
 	}
 	var views []*ssa.Function
 	a.inlinedHelpers = map[*ssa.Function]bool{}
+	for _, f := range p.FuncsOf(pkgpath) {
+		if !a.isCursorMethod(f) && f.Parent() == nil && continuation(f) {
+			a.inlinedHelpers[f] = true // a plain function that is one form of its caller's grammar element
+		}
+	}
 	for _, f := range a.methods {
 		if !regular(f) {
 			// still analysed on its own when something keeps calling it (recursion, conditional defers)
